@@ -61,10 +61,11 @@ func initSymIntrinsics() {
 			if n <= 1 {
 				return mkConst(64, 0)
 			}
+			// a fresh variable constrained only to [0,n): every value is feasible, no solver needed
 			t := m.fresh(strArg(m, a[0]), 64)
-			m.assume(tCmp("bvult", t, mkConst(64, uint64(n))))
-			v := m.concretize(t, "choose "+strArg(m, a[0]), n+1, false, nil)
-			return mkConst(64, uint64(v))
+			k := m.choose("choose", n)
+			m.addPC(tEq(t, mkConst(64, uint64(k))))
+			return mkConst(64, uint64(k))
 		},
 		"Bytes": func(m *Machine, c *frame, fn *ssa.Function, a []value) value {
 			n := intArg(m, a[1])
